@@ -8,6 +8,7 @@ import LoomVerif.Proofs.RefineRel
 import LoomVerif.Proofs.SyncRunOp
 import LoomVerif.Proofs.C07Lock
 import LoomVerif.Proofs.C08Notify
+import LoomVerif.Proofs.C01Choice
 
 namespace LoomVerif
 namespace Refine
@@ -35,8 +36,8 @@ theorem schedule_len {e e' : Exec} {b : Bool} {p : Bool} (h : e.schedule p = .ok
     | (cases h; done)
     | (cases h; simp [Threads.modify])
 
-theorem branch_quiet {w w' : World} {o : Nat} {a : Action} {blk : Bool}
-    (h : w.branch o a blk = .ok w') : Quiet w w' ∧ w'.ctl = w.ctl := by
+theorem branch_quiet {w w' : World} {o : Nat} {a : Action} {blk wt : Bool}
+    (h : w.branch o a blk wt = .ok w') : Quiet w w' ∧ w'.ctl = w.ctl := by
   have hv := ViewLe.of_touched (branch_objs h)
   unfold World.branch at h
   simp only [bind, Except.bind, pure, Except.pure] at h
@@ -61,6 +62,52 @@ theorem threadDone_quiet {w w' : World} (h : w.threadDone = .ok w') : Quiet w w'
     refine ⟨⟨rfl, rfl, rfl, ?_, hv⟩, rfl⟩
     rw [hl]
     simp [World.ths, Threads.modifyActive, Threads.modify]
+
+/-! ### the active thread is in the thread table -/
+
+/-- the active thread of `w` (if there is one) is in the thread table.  `Exec.schedule` establishes it (it
+indexes the table with the thread it activates: a path entry that names a thread that does not exist makes it fail
+with `.internal 31`); the stages that do not schedule keep the active thread and never shrink the table. -/
+def InRange (w : World) : Prop := w.ths.isActive = true → w.tid < w.exec.threads.threads.length
+
+theorem schedule_inRange {e e' : Exec} {b : Bool} {p : Bool} (h : e.schedule p = .ok (e', b)) :
+    e'.threads.isActive = true → e'.threads.activeId < e'.threads.threads.length := by
+  intro ha
+  cases hn : e'.threads.active with
+  | none => simp [Threads.isActive, hn] at ha
+  | some nid =>
+    have := Exec.schedule_active_lt h hn
+    rw [schedule_len h]
+    simp only [Threads.activeId, hn, Option.getD_some]
+    exact this
+
+theorem branch_inRange {w w' : World} {o : Nat} {a : Action} {blk wt : Bool}
+    (h : w.branch o a blk wt = .ok w') : InRange w' := by
+  unfold World.branch at h
+  simp only [bind, Except.bind, pure, Except.pure] at h
+  split at h
+  · cases h
+  · next v hv =>
+    cases h
+    exact @schedule_inRange _ v.1 v.2 _ hv
+
+theorem threadDone_inRange {w w' : World} (h : w.threadDone = .ok w') : InRange w' := by
+  unfold World.threadDone at h
+  simp only [bind, Except.bind, pure, Except.pure] at h
+  split at h
+  · cases h
+  · next v hv =>
+    cases h
+    exact @schedule_inRange _ v.1 v.2 _ hv
+
+/-- a stage that keeps the active thread and does not shrink the thread table -/
+theorem inRange_of {w w' : World} (ht : w'.tid = w.tid)
+    (hl : w.exec.threads.threads.length ≤ w'.exec.threads.threads.length)
+    (h : w.tid < w.exec.threads.threads.length) : InRange w' := fun _ => by rw [ht]; omega
+
+theorem InRange.modCtl {w : World} (h : InRange w) (t : Nat) (f : TCtl → TCtl) : InRange (w.modCtl t f) := h
+
+theorem InRange.complete {w : World} (h : InRange w) (r : Ret) : InRange (w.complete r) := h
 
 /-! ### typed getters -/
 
@@ -197,11 +244,11 @@ theorem notifyWait2_obs {w : World} {o : Nat} {ns : NotifySt} {w1 : World}
 /-- the first half of a wait on a notify that cannot return spuriously is a scheduling point -/
 theorem notifyWait1_obs {w : World} {o : Nat} {ns : NotifySt} {w1 : World} {st : Nat}
     (hn : w.exec.objs[o]? = some (.notify ns)) (hs : ns.spurious = false)
-    (h : w.notifyWait1 o = .ok (w1, st)) : st = 1 ∧ Quiet w w1 ∧ w1.ctl = w.ctl := by
+    (h : w.notifyWait1 o = .ok (w1, st)) : st = 1 ∧ Quiet w w1 ∧ w1.ctl = w.ctl ∧ InRange w1 := by
   rw [notifyWait1_plain hn (by rw [hs]; rfl)] at h
   obtain ⟨w2, hb, he⟩ := map_ok h
   cases he
-  exact ⟨rfl, branch_quiet hb⟩
+  exact ⟨rfl, (branch_quiet hb).1, (branch_quiet hb).2, branch_inRange hb⟩
 
 /-! ### spawn -/
 
